@@ -874,6 +874,21 @@ func (ev *evalEnv) call(e *Expr) tv {
 		}
 		ref := ev.evalInt(e.A[1])
 		return ev.selField(tv{v: &Val{K: KPtr, T: []string{ref}}, t: types.NewPointer(o.Type())}, e.A[0].Name)
+	case "sbview":
+		// sbview(b): the contents of a SerializeBuffer as a byte sequence (abstract view of the interface contract)
+		b := ev.eval(e.A[0])
+		if b.v == nil || b.v.K != KIface {
+			ev.fail("sbview(serializeBuffer)")
+		}
+		saved := c.st
+		c.st = ev.st
+		get := func(key string) string {
+			c.em.regKey(key, "Int", false)
+			return "(select " + c.heapGet(key) + " " + b.v.T[1] + ")"
+		}
+		arr, off, ln := get("ghost:sbArr"), get("ghost:sbOff"), get("ghost:sbLen")
+		c.st = saved
+		return tv{v: &Val{K: KSlice, T: []string{arr, off, ln, ln}}, t: types.NewSlice(types.Typ[types.Uint8])}
 	case "ghost":
 		if e.A[0].Op != "ident" {
 			ev.fail("ghost(name)")
